@@ -1,6 +1,6 @@
 """C02 — decoder results do not depend on how input and output are chunked (structural clauses D1–D6)."""
 import t_dst, r_account, r_preamble, r_resume, r_iso, r_inv, r_inputempty
-import p_c10, p_c01, r_surr
+import p_c10, p_c01, r_surr, r_pendcount
 
 MANIFEST = {
     'category': 'other',
@@ -16,7 +16,8 @@ MANIFEST = {
             'as the reference automaton prescribes (shared with C10); (D6) the UTF-8 and UTF-16 expansions of every decoder macro '
             'are structurally isomorphic. Equality of the concatenated output with the one-shot result over all histories '
             '(which needs the semantics of every body) is not decided. ' 
-            '(R-SURR) every surrogate-class test on the decoder side (UTF-16 decoder bodies, the copy_utf16_from fast paths including the hold-back of a trailing high surrogate at a chunk or output boundary, convert_unaligned_utf16_to_utf8) denotes exactly D800-DBFF, DC00-DFFF or D800-DFFF, so a pair is never split differently depending on where the chunk or the output ends.',
+            '(R-SURR) every surrogate-class test on the decoder side (UTF-16 decoder bodies, the copy_utf16_from fast paths including the hold-back of a trailing high surrogate at a chunk or output boundary, convert_unaligned_utf16_to_utf8) denotes exactly D800-DBFF, DC00-DFFF or D800-DFFF, so a pair is never split differently depending on where the chunk or the output ends. ' 
+            '(R-PENDCOUNT) for the two decoders that keep an unfinished sequence in an enum (EUC-JP, gb18030), Pending::count() — reported as the malformed length when the stream ends there — agrees with the bytes actually taken: on every path from a loop head to `return InputEmpty` that stores a non-None variant, count(variant) minus the number of byte reads on the path is the same for all variants (the byte already in hand at that head).',
     'note': 'Trusted: rustc MIR, mirx, rule library; the frozen tables of deferred-output and pending-input fields (confirmed by reading).',
     'technique': 'MIR dataflow (may-analysis), control-dependence taint rule, bounded path summaries, sibling-expansion comparison',
 }
@@ -43,6 +44,7 @@ def run(rep, facts, tier):
             p_c10.helpers(rep, f, c, sink)
         r_iso.run(rep, f, c, 'R-ISO', '::decode_to_utf8_raw', '::decode_to_utf16_raw', 8)
         r_inv.run(rep, f, c, 'R-INV')
+        r_pendcount.run(rep, f, c)
         n = r_surr.run(rep, f, c, 'R-SURR', p_c01.DEC_SURR_SCOPE)
         rep.floor('R-SURR', 'surrogate-class tests on the decoder side', n, 10, c)
     return ('other', MANIFEST['text'], [])
